@@ -89,3 +89,17 @@ package art
 //@   bytes: key
 //@   modifies nothing
 //@   ensures result == aValue(it, it.apos)
+
+// ---- ART.Set: limits and iterator invalidation (C08) ----------------------------------------------------------------------
+// An oversized key or entry is refused before anything changes. Every accepted write - a value as well as a flags-only
+// write (which can also restructure the tree) - advances the write sequence number, which is what makes an iterator that
+// is used afterwards fail loudly. The buffer limit is judged on the size the buffer has AFTER the write (an overwrite or
+// a deletion that keeps it within the limit is accepted): "transaction too large" is answered exactly when that size
+// exceeds the limit.
+//@ func (*ART) Set
+//@   prop C08
+//@   may-panic
+//@   opaque-callee traverse setValue
+//@   ensures keylimit: len(key) > MaxKeyLen ==> result != nil && t.WriteSeqNo == old(t.WriteSeqNo)
+//@   ensures entrylimit: len(key) <= MaxKeyLen && value != nil && uint64(len(key) + len(value)) > old(t.entrySizeLimit) ==> result != nil && t.WriteSeqNo == old(t.WriteSeqNo)
+//@   ensures accepted: len(key) <= MaxKeyLen && (value == nil || uint64(len(key) + len(value)) <= old(t.entrySizeLimit)) ==> t.WriteSeqNo == old(t.WriteSeqNo) + 1 && (result != nil) == (uint64(t.size) > t.bufferSizeLimit)
